@@ -60,14 +60,21 @@ class Bench:
         H.URANDOM.reseed(seed)
         self.rx, self.rr = H.mk_driver(w, "rx", cls=H.FakeBLE)
         self.rx.__enter__()
-        for _ in range(hops):
+        # hops 0..2: tuned by hop_channel() only; hops >= 10: (hops-10)//3 hops, then the channel
+        # attribute is ASSIGNED to the BLE frequency (2, 26, 80)[(hops-10) % 3]
+        nhops, assign = (hops, None) if hops < 10 else ((hops - 10) // 3, (2, 26, 80)[(hops - 10) % 3])
+        for _ in range(nhops):
             self.rx.hop_channel()
+        if assign is not None:
+            self.rx.channel = assign
         self.tx = self.tr = None
         if need_lib_tx:
             self.tx, self.tr = H.mk_driver(w, "tx", cls=H.FakeBLE, cost=31 * US)
             self.tx.__enter__()
-            for _ in range(hops):
+            for _ in range(nhops):
                 self.tx.hop_channel()
+            if assign is not None:
+                self.tx.channel = assign
         self.rx.listen = True
         self.ch = self.rr.r[0x05]
         self.ghost = sim.ghost_sender(w, "ghost", channel=self.ch, crc=0, aw=4, en_aa=0, dynpd=0, feature=0)
@@ -480,6 +487,11 @@ def dom_battery(tier, seed):
                 if v % 8 == 7:
                     name = ("bytes", 3)
                 cases.append(adv_case(hops, tx, [("battery", v)], name, pa, mac_salt=v, call="raw" if v % 5 == 0 else "list"))
+    # both ends tuned by ASSIGNING the channel attribute (every previous channel x every target)
+    for hops in range(10, 19):
+        for v in range(3, 256, 36):
+            for tx in ("lib", "ref"):
+                cases.append(adv_case(hops, tx, [("battery", v)], ("str", 1 + v % 5) if v % 2 else ("none", 0), None, mac_salt=v, call="list"))
     return split("battery", cases, 12, seed)
 
 
@@ -826,7 +838,7 @@ def run(tier, seed, rep, only=None):
         level="model_checking",
         exhaustive=True,
         rule="E-ENUM over the air between a transmitter (real FakeBLE or the independent encoder on a ghost radio) and a listening "
-             "FakeBLE: battery 0..255 x 3 channels x 2 transmitters; temperatures every 1.00 in -300..300 plus every 0.01 at "
+             "FakeBLE: battery 0..255 x 3 channels x 2 transmitters (+ both ends tuned by channel assignment from every previous channel to every target); temperatures every 1.00 in -300..300 plus every 0.01 at "
              "-300..-299, -1..1, 299..300 (thorough: every 0.01 of the whole range); URLs = 4 schemes x (14 expansions + none) x "
              "bodies x end/path shapes, every TX power; names (None/str/bytes/UTF-8, every length 0..16) x TX power fields; raw "
              "structures of every length; all 1-bit and (quick: PDU-region / length-octet, thorough: all) 2-bit corruptions of a short "
